@@ -1,4 +1,5 @@
 import MosnVerif.Gen.H2GoAway
+import MosnVerif.Gen.C08H2Trailers
 /-!
 The per-stream rule of the HTTP/2 graceful stop: what `MServerConn` (pkg/module/http2/mhttp2.go) does with the frames
 of a request once the connection has sent its GOAWAY.
@@ -90,6 +91,10 @@ def overDecl (decl : Option Nat) (n : Nat) : Bool :=
   | some d => decide (d < n)
   | none => false
 
+/-- [c08l9] processHeaders tests `st.state == stateHalfClosedRemote` before `mprocessTrailerHeaders` -/
+def srvTrailerStateCheck : Bool :=
+  MosnVerif.Gen.C08H2Trailers.srvBeforeTrailers.contains "st.state==stateHalfClosedRemote => streamError(id,ErrCodeStreamClosed)"
+
 def stepWith (discard : Rule) (c : Conn) : Ev → Conn × List Out
   | .shutdown => if c.dead then (c, []) else goAway c gracefulCode
   | .headers id es decl =>
@@ -98,6 +103,9 @@ def stepWith (discard : Rule) (c : Conn) : Ev → Conn × List Out
     if id % 2 ≠ 1 then connError c ErrCodeProtocol else
     match getS c id with
     | some st =>
+      -- [c08l9] RFC 7540 5.1: HEADERS for a stream that is half-closed (remote) is a stream error STREAM_CLOSED, in
+      -- front of the trailer processing (regenerated: Gen/C08H2Trailers.srvBeforeTrailers; since fix 'trailers after END_STREAM')
+      if srvTrailerStateCheck && st.halfClosed then streamError c id ErrCodeStreamClosed else
       -- trailers (`mprocessTrailerHeaders`)
       if st.gotTrailer then connError c ErrCodeProtocol
       else if !es then streamError c id ErrCodeProtocol
